@@ -23,16 +23,16 @@ CLAIMED = {
    text="Seeded search over interleavings of 2..3 emitting threads (every input of merge / flat_map / zip / concat / amb on its own simulated thread, with and without take(n) downstream) at lock-operation granularity. Oracle: conservation (multiset, per-input order, zip pairing, concat non-interleaving, single amb winner), take never exceeds n, exactly one complete after the last item, never two terminals.",
    technique='deterministic simulation: seeded scheduling of emitting threads, conservation oracle over the recorded history'),
  'C12': dict(level='exploration', design='5.12',
-   text="Seeded search over interleavings of 1..2 producer threads, up to two concurrently subscribing threads and an unsubscribing thread on Subject / BehaviorSubject / ReplaySubject. Oracle with conservative stamps: steady observers get everything once in producer order; concurrent subscribers a gap-free suffix (ReplaySubject: everything; BehaviorSubject: a value then every later one); concurrent unsubscribers a gap-free prefix and nothing pushed after unsubscribe returned. Three genuine races of the pinned tree are recorded as open findings with an explains-predicate (push overlaps subscribe).",
+   text="Seeded search over interleavings of 1..2 producer threads, up to two concurrently subscribing threads and an unsubscribing thread on Subject / BehaviorSubject / ReplaySubject. Oracle with conservative stamps: steady observers get everything once in producer order; concurrent subscribers a gap-free suffix (ReplaySubject: everything; BehaviorSubject: a value then every later one); concurrent unsubscribers a gap-free prefix and nothing pushed after unsubscribe returned. Three genuine races of the pinned tree are recorded as open findings with an explains-predicate (push overlaps subscribe). A subscriber behind take(1) leaves from inside its first delivery; at quiescence the subject's observer count must equal the observers that stayed.",
    technique='deterministic simulation: seeded scheduling of producer/subscriber/unsubscriber threads, per-producer suffix/prefix oracle'),
  'C19': dict(level='exploration', design='5.19',
    text="Seeded search over interleavings of 2..3 threads of which at least one signals a terminal while another emits: inputs of merge / flat_map / zip / amb / concat, source vs trigger of take_until / skip_until / sample, and next || complete/error || error on the four subject types, observers direct and behind an operator, with scheduling points inside the subscriber's callbacks. Oracle: at most one terminal; no delivery whose originating emission started after the terminal callback returned.",
    technique='deterministic simulation: seeded scheduling of racing emitters, contract oracle with logical-clock stamps'),
  'C15': dict(level='exploration', design='5.15',
-   text="A catalogue of every thread-creating construct (interval, timer, observe_on, subscribe_on, debounce, timeout and nestings) crossed with every ending (terminal, unsubscribe at a virtual instant or immediately, take, first, take_until(timer), amb(timer), retry), single and repeated subscriptions, run on the virtual clock under seeded schedules with and without timer jitter. Oracle: at quiescence no worker thread the crate spawned is alive (a worker blocked on its queue is the simulator's 'leak' outcome), and after the end instant each worker begins at most one further sleep and takes a bounded number of own steps.",
+   text="A catalogue of every thread-creating construct (interval, timer, observe_on, subscribe_on, debounce, timeout and nestings) crossed with every ending (terminal, unsubscribe at a virtual instant or immediately, take, first, take_until(timer), amb(timer), retry), single and repeated subscriptions, run on the virtual clock under seeded schedules with and without timer jitter. Oracle: at quiescence no worker thread the crate spawned is alive (a worker blocked on its queue is the simulator's 'leak' outcome), and after the end instant each worker begins at most one further sleep and takes a bounded number of own steps. The catalogue also holds cold sources that deliver everything inside subscribe (under debounce / timeout / observe_on / delay / sample) and nestings (switch_on_next, flat_map of observe_on, concat of timers, zip / combine_latest of intervals, retry over a failing observe_on, window + flat_map).",
    technique='deterministic simulation: virtual discrete-event clock, seeded scheduling, timer-jitter and spurious-wake-up faults; task-table oracle at quiescence'),
  'C16': dict(level='exploration', design='5.16',
-   text="Virtual-time runs of interval (new-thread and default scheduler), timer, delay, timeout, sample and debounce over scripted sources with gaps from a tie-free grid, with a slow consumer for timeout and re-subscription for interval/timer. Exact configuration: (virtual instant, event) pairs must equal the closed-form expectation. Jitter configuration (sleeps return up to 30 ms late), reported separately: lower bounds, order, no loss/duplication, and no timeout unless a gap exceeded d.",
+   text="Virtual-time runs of interval (new-thread and default scheduler), timer, delay, timeout, sample and debounce over scripted sources with gaps from a tie-free grid, with a slow consumer for timeout and re-subscription for interval/timer. Exact configuration: (virtual instant, event) pairs must equal the closed-form expectation. Jitter configuration (sleeps return up to 30 ms late), reported separately: lower bounds, order, no loss/duplication, and no timeout unless a gap exceeded d. delay is also fed by two producer threads merged into it (per-item latency judged).",
    technique='deterministic simulation: virtual clock + seeded scheduling of timer/source threads; exact and jitter configurations with separate oracles'),
  'C01': dict(level='exploration', design='5.1',
    text="Generated pipelines over every operator of the crate (nested to depth 3 quick / 5 thorough, also the degenerate pipeline with the subscriber directly on the source) over 1..3 hot / cold / subject sources whose scripts carry the protocol-violation fault (events after the terminal, both terminals, repeated terminals, and re-entrant emission from inside the subscriber's callback), stepped in a generated sequential interleaving inside the simulator. Oracle: the contract automaton next* (error|complete)? at the recording subscriber and is_subscribed()==false after the terminal.",
@@ -50,23 +50,23 @@ CLAIMED = {
    technique='deterministic simulation: ending-cause x position faults; drop-counting token conservation at quiescence',
    note="Only subscriptions that ended are judged. The harness stores token-free copies of recorded items."),
  'C14': dict(level='exploration', design='5.14',
-   text="One generated pipeline value (every operator incl. wrapping in retry) over hot sources with per-subscription scripts, cold sources and creation functions is subscribed 2..3 times: sequentially, interleaved (the second subscription starts while the first is mid-stream), and nested from inside a callback. Self-differential oracle: subscriber k's record equals its record when the same AST is built afresh and subscribed once, driven by the same steps; tap side-effect counters equal the sum of the solo runs.",
+   text="One generated pipeline value (every operator incl. wrapping in retry) over hot sources with per-subscription scripts, cold sources and creation functions is subscribed 2..3 times: sequentially, interleaved (the second subscription starts while the first is mid-stream), and nested from inside a callback. Self-differential oracle: subscriber k's record equals its record when the same AST is built afresh and subscribed once, driven by the same steps; tap side-effect counters equal the sum of the solo runs. A second family starts a nested subscription from inside the first subscriber's callback while a cold synchronous source is emitting - plain and behind ref_count / replay: the first subscriber is unaffected, the nested call returns, the nested subscriber gets the whole sequence (plain, replay) or the rest of it (ref_count).",
    technique='deterministic simulation (single driver task): interleaved sessions sharing one object, self-differential oracle against fresh solo runs',
    note="No reference semantics are assumed: the reference is the crate itself on a fresh pipeline. Sampling, not enumeration."),
  'C10': dict(level='exploration', design='5.10',
-   text="Generated call histories (length <= 8 quick / 12 thorough) over {subscribe_i, unsubscribe_i, next(v), error, complete} with up to 3 observers (attached directly, through map, through take(1|2)) on each of the four subject types, including misuse (subscribe after a terminal, double unsubscribe, calls after a terminal), with the HashMap iteration order perturbed. Oracle: a reference state machine that reads the statement literally; after the run every observer's record equals the model's and after every step the subject's registered-observer count equals the model's live set. Where the statement is silent only weak invariants are asserted. One observer may be subscribed from inside another one's terminal callback; a second family runs the ReplaySubject hand-over against pushes / a terminal from another thread.",
+   text="Generated call histories (length <= 8 quick / 12 thorough) over {subscribe_i, unsubscribe_i, next(v), error, complete} with up to 3 observers (attached directly, through map, through take(1|2)) on each of the four subject types, including misuse (subscribe after a terminal, double unsubscribe, calls after a terminal), with the HashMap iteration order perturbed. Oracle: a reference state machine that reads the statement literally; after the run every observer's record equals the model's and after every step the subject's registered-observer count equals the model's live set. Where the statement is silent only weak invariants are asserted. One observer may be subscribed from inside another one's terminal callback; a second family runs the ReplaySubject hand-over against pushes / a terminal from another thread. The threaded C12 family is run for plain and replay subjects as well (late / leaving / take(1) subscribers concurrent with pushes and a terminal; observer count at quiescence).",
    technique='deterministic simulation (single task): generated operation histories incl. misuse + hash-order fault, checked step by step against an executable reference model',
    note="The reference model is ~150 lines in harness/src/c10.rs. Sampling of the history space; a clean batch is evidence, not proof."),
  'C13': dict(level='exploration', design='5.13',
-   text="Sequential family: generated call histories (<= 8 quick / 12 thorough) over {subscribe_i, unsubscribe_i, connect, disconnect, source emits, source terminal} with up to 3 subscribers (direct, map, take(1|2); sharing one Observable value or a fresh observable() each) on publish / ref_count / replay, over a hot instrumented source and over cold sources that emit synchronously inside connect / the first subscribe (incl. a subscriber leaving during the burst). Oracle: reference state machine for deliveries, source-subscription counter and is_subscribed liveness probe after every call (0 before connect, 1 while connected, never 2, 0 after disconnect / last leave, replay = full history once). Threaded family: the first subscribers arrive concurrently and later leave concurrently. Not asserted: reconnection of ref_count after zero, double connect.",
+   text="Sequential family: generated call histories (<= 8 quick / 12 thorough) over {subscribe_i, unsubscribe_i, connect, disconnect, source emits, source terminal} with up to 3 subscribers (direct, map, take(1|2); sharing one Observable value or a fresh observable() each) on publish / ref_count / replay, over a hot instrumented source and over cold sources that emit synchronously inside connect / the first subscribe (incl. a subscriber leaving during the burst). Oracle: reference state machine for deliveries, source-subscription counter and is_subscribed liveness probe after every call (0 before connect, 1 while connected, never 2, 0 after disconnect / last leave, replay = full history once). Threaded family: the first subscribers arrive concurrently and later leave concurrently. Not asserted: reconnection of ref_count after zero, double connect. In the threaded family an emitter thread may go on emitting while some subscribers leave and others stay (stayers see everything, leavers a prefix).",
    technique='deterministic simulation: generated operation histories against an executable reference model + seeded interleavings of concurrent first subscribers',
    note="Reference model in harness/src/c13.rs. Sampling of the history space."),
  'C03': dict(level='exploration', design='5.3',
-   text="Stage-wise refinement: one judged combinator (merge, concat, zip, combine_latest, amb, sequence_equal, take_until, skip_until, sample, flat_map with cold and hot overlapping inner sources) with 1..4 inputs, each a scripted hot / cold / subject source or creation function optionally behind other operators, probes on every input edge (and on every inner observable of flat_map) and on the output edge, driven in generated sequential interleavings. The operator's reference model is evaluated on the recorded input histories (global arrival order, subscription instants) and must allow the recorded output; may-sets where the statement is silent. utils::ready_set_go has its own family; amb is additionally run with its inputs on different simulated threads (single winner). switch_on_next is exercised, not judged.",
+   text="Stage-wise refinement: one judged combinator (merge, concat, zip, combine_latest, amb, sequence_equal, take_until, skip_until, sample, flat_map with cold and hot overlapping inner sources) with 1..4 inputs, each a scripted hot / cold / subject source or creation function optionally behind other operators, probes on every input edge (and on every inner observable of flat_map) and on the output edge, driven in generated sequential interleavings. The operator's reference model is evaluated on the recorded input histories (global arrival order, subscription instants) and must allow the recorded output; may-sets where the statement is silent. utils::ready_set_go has its own family; amb is additionally run with its inputs on different simulated threads (single winner). switch_on_next is exercised, not judged. The subscriber may also step a source from inside its next callback (an event reaches the operator while its previous output is still being delivered). Trigger terminals have no effect.",
    technique='deterministic simulation (single driver task): generated arrival orders of several sources; per-operator executable reference models on recorded edge histories',
    note="Reference models in harness/src/c03.rs (about 300 lines); the probe stage is written like the crate's own map. Sampling of scripts x interleavings."),
  'C04': dict(level='fault_enumeration', design='5.4',
-   text="Travel family: generated pipelines of non-handler operators (unary operators, merge / zip / concat / combine_latest / sequence_equal siblings, take_until / skip_until / sample with the faulted source on the source side, flat_map with cold inners) over hot / subject / cold sources; the error fault with a unique payload is placed at EVERY position of the faulted source's script (enumerated inside each case) and each variant is compared with the fault-free run cut at the same position: same events before, then the very same payload exactly once as the last event. Handler family: retry(0..4), retry_when (4 predicates), on_error_resume_next (5 resume functions), materialize, materialize+dematerialize over a hot source whose k-th subscription has its own script, against reference models including the source-subscription count and 'the failed attempt is unsubscribed before the next one starts'.",
+   text="Travel family: generated pipelines of non-handler operators (unary operators, merge / zip / concat / combine_latest / sequence_equal siblings, take_until / skip_until / sample with the faulted source on the source side, flat_map with cold inners) over hot / subject / cold sources; the error fault with a unique payload is placed at EVERY position of the faulted source's script (enumerated inside each case) and each variant is compared with the fault-free run cut at the same position: same events before, then the very same payload exactly once as the last event. Handler family: retry(0..4), retry_when (4 predicates), on_error_resume_next (5 resume functions), materialize, materialize+dematerialize over a hot source whose k-th subscription has its own script, against reference models including the source-subscription count and 'the failed attempt is unsubscribed before the next one starts'. amb directly on plain sources is judged when the faulted source signals first; the handler family also runs over a real ReplaySubject (every attempt is handed history and stored error again).",
    technique='deterministic simulation (single driver task): error fault enumerated at every script position, differential + reference-model oracles',
    note="Sampling of pipelines and scripts; inside a case the fault positions are enumerated completely. retry(n) convention as named in the property's anchors."),
  'C07': dict(level='exploration', design='5.7',
